@@ -757,7 +757,15 @@ def gap_specs(chk, with_remove=False):
         gaps = (gap_at,) if isinstance(gap_at, int) else gap_at          # one slot, or a hole several slots wide
         for g in gaps:
             o = 64 + 288 * g
-            struct.pack_into("<IIii", raw, o, 0, 0, struct.unpack_from("<i", raw, o + 8)[0], 0)     # slot becomes unused, size 0
+            # the slot becomes unused, size 0; it keeps the old block's offset, or (every other file) points at the
+            # end of the data as BTS-written free slots do
+            off = struct.unpack_from("<i", raw, o + 8)[0] if j % 2 == 0 else len(raw)
+            struct.pack_into("<IIii", raw, o, 0, 0, off, 0)
+        if with_remove and j % 3 == 2 and nlive >= 3 and isinstance(gap_at, int):
+            # and a table that is not in file order: the last two live entries swapped
+            a, b = 64 + 288 * (nlive - 2), 64 + 288 * (nlive - 1)
+            if (nlive - 2) not in gaps and (nlive - 1) not in gaps:
+                raw[a:a + 288], raw[b:b + 288] = raw[b:b + 288], raw[a:a + 288]
         open(p, "wb").write(bytes(raw))
         live = [k for i, k in enumerate(kinds) if i not in gaps]
         gap_at = gaps[0]
